@@ -12,6 +12,7 @@ import (
 	"sync"
 
 	crypto "github.com/dappledger/AnnChain/gemmill/go-crypto"
+	wire "github.com/dappledger/AnnChain/gemmill/go-wire"
 	"github.com/dappledger/AnnChain/gemmill/types"
 )
 
@@ -140,13 +141,105 @@ func newWorld(spec setSpec, h, r int64, t byte) *world {
 	return w
 }
 
-// realSet builds the repository's ValidatorSet for the spec.
+// realSet builds the repository's ValidatorSet for the spec. Three of four specs (chosen by a hash of
+// the powers) do not come straight from NewValidatorSet but from a history, as the set of a running
+// chain does: a start set in which some validators are missing or have another power (and, when the
+// total leaves room, one extra member), brought to the spec by Add / Update / Remove in a seeded
+// order, with Copy() and go-wire round trips (what State.Save/LoadState does) in between. Members
+// and powers of the result are exactly the spec's; only the accums differ, which vote accounting
+// does not read.
 func (w *world) realSet() *types.ValidatorSet {
-	vals := make([]*types.Validator, w.n)
-	for k := 0; k < w.n; k++ {
-		vals[k] = &types.Validator{Address: keys[k].addr, PubKey: keys[k].pub, VotingPower: w.spec.Powers[k]}
+	mk := func(k int, p int64) *types.Validator {
+		return &types.Validator{Address: keys[k].addr, PubKey: keys[k].pub, VotingPower: p}
 	}
-	return types.NewValidatorSet(vals)
+	var hsh uint64 = 1469598103934665603
+	for _, p := range w.spec.Powers {
+		hsh = (hsh ^ uint64(p)) * 1099511628211
+	}
+	if hsh%4 == 0 || w.n == 0 {
+		vals := make([]*types.Validator, w.n)
+		for k := 0; k < w.n; k++ {
+			vals[k] = mk(k, w.spec.Powers[k])
+		}
+		return types.NewValidatorSet(vals)
+	}
+	rng := rand.New(rand.NewSource(int64(hsh >> 1)))
+	type step struct {
+		kind string
+		k    int
+	}
+	var start []*types.Validator
+	var steps []step
+	for k := 0; k < w.n; k++ {
+		target := w.spec.Powers[k]
+		switch c := rng.Intn(3); {
+		case c == 1 && target > 1:
+			start = append(start, mk(k, 1+rng.Int63n(target-1))) // a smaller power, updated later
+			steps = append(steps, step{"update", k})
+		case c == 2 && (len(start) > 0 || k < w.n-1):
+			steps = append(steps, step{"add", k})
+		default:
+			start = append(start, mk(k, target))
+		}
+	}
+	if len(start) == 0 {
+		start = append(start, mk(steps[0].k, w.spec.Powers[steps[0].k]))
+		steps = steps[1:]
+	}
+	if w.totalU < math.MaxInt64/4 {
+		start = append(start, &types.Validator{Address: extraKey().addr, PubKey: extraKey().pub, VotingPower: 1 + rng.Int63n(5)})
+		steps = append(steps, step{"remove-extra", -1})
+	}
+	rng.Shuffle(len(steps), func(i, j int) { steps[i], steps[j] = steps[j], steps[i] })
+	vs := types.NewValidatorSet(start)
+	between := func() {
+		switch rng.Intn(5) {
+		case 0:
+			vs = vs.Copy()
+		case 1:
+			var n int
+			var err error
+			bz := wire.BinaryBytes(vs)
+			vs = wire.ReadBinary(&types.ValidatorSet{}, bytes.NewReader(bz), 0, &n, &err).(*types.ValidatorSet)
+			if err != nil {
+				panic("validator set does not survive its own encoding: " + err.Error())
+			}
+		case 2:
+			vs.TotalVotingPower()
+		}
+	}
+	for _, st := range steps {
+		between()
+		ok := true
+		switch st.kind {
+		case "update":
+			ok = vs.Update(mk(st.k, w.spec.Powers[st.k]))
+		case "add":
+			ok = vs.Add(mk(st.k, w.spec.Powers[st.k]))
+		case "remove-extra":
+			_, ok = vs.Remove(extraKey().addr)
+		}
+		if !ok {
+			panic(fmt.Sprintf("building the validator set: %s of key %d refused", st.kind, st.k))
+		}
+	}
+	between()
+	return vs
+}
+
+var (
+	extraOnce sync.Once
+	extraK    keyT
+)
+
+// extraKey: a member of some start sets that is always removed again.
+func extraKey() keyT {
+	extraOnce.Do(func() {
+		priv := crypto.GenPrivKeyEd25519FromSecret([]byte("c15-key-extra-member"))
+		pub := priv.PubKey()
+		extraK = keyT{priv: priv, pub: pub, addr: pub.Address()}
+	})
+	return extraK
 }
 
 func (w *world) overflowRegime() bool { return w.totalU > math.MaxInt64/2 }
